@@ -418,6 +418,36 @@ func TestC04(t *testing.T) {
 		run("enum-renderable", ParamCase{Tree: n, DF: "dflt"})
 	})
 
+	// awkward strings in pairs: every (lower, upper) pair of a pool of quoted strings that
+	// end in a backslash, contain commas, apostrophes or the renderer's own separators, as
+	// the bounds of a range, and each of them as value, comparison value and list element,
+	// under field names that need quoting or escaping themselves (backslash, tab, dot,
+	// blank). Inline and parameterized output are built by different code from the same
+	// tree; a bound that confuses the inline renderer's splitting of "lo, hi", or a column
+	// quoted differently on the two paths, shows as not-equivalent / param-list.
+	awkward := []string{`x\`, "b,c", "', '", "a'b", `x\\`, ",", "'", `\'`, "a b", `x\, y`, "é", "'x', 'y'", " AND ", "1", `\,`, "z"}
+	awkFields := []*gen.Val{gen.Word("f"), gen.EscapedWord(`a\b`), gen.Quoted("c\td"), gen.Quoted(`p\q`), gen.EscapedWord("m n"), gen.Word("x.y")}
+	st.Stream("awkward-strings", true, fmt.Sprintf("%d x %d (lower, upper) pairs of awkward quoted strings as range bounds x {inclusive, exclusive}, and each string as value / comparison value / list element, x %d field names, df in {none, dflt}", len(awkward), len(awkward), len(awkFields)))
+	aidx := 0
+	awk := func(n *gen.Node) {
+		if aidx%cfg.NShards == cfg.Shard {
+			run("awkward-strings", ParamCase{Tree: n})
+			run("awkward-strings", ParamCase{Tree: &gen.Node{K: gen.NAnd, L: n, R: &gen.Node{K: gen.NTerm, V: gen.Word("w")}}, DF: "dflt"})
+		}
+		aidx++
+	}
+	for _, fld := range awkFields {
+		for _, lo := range awkward {
+			awk(&gen.Node{K: gen.NField, Field: fld, V: gen.Quoted(lo)})
+			awk(&gen.Node{K: gen.NCmp, Field: fld, Cmp: ">=", V: gen.Quoted(lo)})
+			awk(&gen.Node{K: gen.NList, Field: fld, Vals: []*gen.Val{gen.Quoted(lo), gen.Int(2), gen.Quoted(lo + "x")}})
+			for _, hi := range awkward {
+				awk(&gen.Node{K: gen.NRange, Field: fld, Lo: gen.Quoted(lo), Hi: gen.Quoted(hi), IncLo: true, IncHi: true})
+				awk(&gen.Node{K: gen.NRange, Field: fld, Lo: gen.Quoted(lo), Hi: gen.Quoted(hi)})
+			}
+		}
+	}
+
 	tcfg := gen.ParseCfg
 	tcfg.Boost, tcfg.Fuzzy = false, false
 	tcfg.Vals.Hostile = true
